@@ -562,6 +562,12 @@ class Symx:
             r = self.std_writer(short, args, st)
             if r is not None:
                 return r
+        if q == 'std::copy_n' and kind == 'func' and len(args) == 3:
+            # copy_n(first, n, out) = copy(first, first + n, out)
+            last_ = {'k': 'Call', 'kind': 'op', 'op': '+', 'args': [args[0], args[1]], 'callee': {'q': 'iterator+'}, 'ty': strip(args[0]).get('ty'), 'l': e.get('l')}
+            r = self.std_writer('copy', [args[0], last_, args[2]], st)
+            if r is not None:
+                return r
         if q == 'std::reverse' and kind == 'func' and len(args) == 2:
             # whole-container reversal: element k of the result is element len-1-k of the operand
             i0, i1 = self.iterator(args[0], st), self.iterator(args[1], st)
